@@ -37,6 +37,7 @@ import io
 import itertools
 import json
 import os
+import re
 import random
 import shutil
 import sys
@@ -133,6 +134,43 @@ ALL_KINDS = ("P", "I", "N", "B", "AP", "RP", "E", "Q", "F", "L", "A", "AF", "R")
 QUICK_KINDS = ("P", "N", "AP", "RP", "E", "F", "A", "AF", "R")
 
 
+# plain (non-encrypted) scalars that YAML reads as timestamps / dates: offsets west and east of UTC with and without
+# minutes, fractions, the space-separated form, a bare date -- each denotes one instant, written one way
+TIMESTAMPS = ("2024-02-29T23:10:00-03:30", "2001-12-14 21:59:43.10 -00:45", "2024-03-01T00:10:00+05:45", "2002-12-14",
+              "2001-12-14t21:59:43.5Z", "2024-12-31T23:59:59-09:30", "2001-12-15 2:59:43.10")
+
+
+_TS_RE = re.compile(r"(\d{4})-(\d\d?)-(\d\d?)(?:(?:[Tt]|[ \t]+)(\d\d?):(\d\d):(\d\d)(?:\.(\d*))?(?:[ \t]*(Z|([-+])(\d\d?)(?::(\d\d))?))?)?")
+
+
+def ts_meaning(m):
+    """What a YAML 1.1 timestamp text denotes (own reading of the spec's grammar, not the library's constructor):
+    ('date', y, m, d) or ('instant', UTC date-time, microseconds, offset in minutes or None)."""
+    import datetime
+    y, mo, d = int(m.group(1)), int(m.group(2)), int(m.group(3))
+    if m.group(4) is None:
+        return ("date", y, mo, d)
+    frac = (m.group(7) or "")[:6]
+    micro = int(frac.ljust(6, "0")) if frac else 0
+    off = None
+    if m.group(8) == "Z":
+        off = 0
+    elif m.group(9):
+        off = (int(m.group(10)) * 60 + int(m.group(11) or 0)) * (-1 if m.group(9) == "-" else 1)
+    t = datetime.datetime(y, mo, d, int(m.group(4)), int(m.group(5)), int(m.group(6))) - datetime.timedelta(minutes=off or 0)
+    return ("instant", t.isoformat(), micro, off)
+
+
+def ts_meanings(text):
+    out = []
+    for m in _TS_RE.finditer(text):
+        try:
+            out.append(ts_meaning(m))
+        except ValueError:
+            pass
+    return out
+
+
 def slot_count(shape):
     if isinstance(shape, int):
         return 1
@@ -178,6 +216,8 @@ def slot_render(kinds, i, indent):
         return " null"
     if k == "B":
         return " true"
+    if k == "T":
+        return " " + TIMESTAMPS[i % len(TIMESTAMPS)]
     if k == "AP":
         return " &pl%d anchored-plain%d" % (i, i)
     if k == "RP":
@@ -246,6 +286,12 @@ def build_specs(tier, seed):
             combos = special + rng.sample(rest, budget - len(special))
         for c in combos:
             specs.append({"kind": "doc", "shape": name, "kinds": c})
+        # timestamps among the untouched values: at each slot in turn, secrets in the other slots; shifted so that every
+        # timestamp text is used (slot i shows TIMESTAMPS[i mod 7])
+        for j in range(n):
+            for enc in ("E", "A"):
+                specs.append({"kind": "doc", "shape": name, "kinds": ["T" if i == j else enc for i in range(n)]})
+        specs.append({"kind": "doc", "shape": name, "kinds": ["T"] * (n - 1) + ["E"]})
     return specs
 
 
@@ -364,6 +410,12 @@ def check_doc(col, wd, spec):
                     "the rotated file cannot be loaded any more", inp, observed={"after": after[:500], "error": msg[:200]},
                     expected="a loadable document")
         return
+    for i, k in enumerate(kinds):
+        # (text level, independent of the library's own reading of the value)
+        if k == "T" and ts_meanings(TIMESTAMPS[i % len(TIMESTAMPS)])[0] not in ts_meanings(after):
+            col.witness("C19/plain-value-changed/timestamp-instant", "a non-encrypted timestamp denotes another instant / offset after rotation", inp,
+                        observed={"after": after[:400], "timestamps-read": [list(x) for x in ts_meanings(after)]},
+                        expected={"text": TIMESTAMPS[i % len(TIMESTAMPS)], "meaning": list(ts_meanings(TIMESTAMPS[i % len(TIMESTAMPS)])[0])})
     wpre, wpost = walk(pre), walk(post)
     if [p for p, _ in wpre] != [p for p, _ in wpost]:
         col.witness("C19/structure-keys-or-order-changed", "keys / order / lengths differ after rotation", inp,
